@@ -92,6 +92,20 @@ static void OUT(const char* fmt, ...) {
 /* descriptor table as the harness knows it */
 enum { ST_NONE = 0, ST_USER = 1, ST_LIBUV = 2, ST_PRIV = 3 };
 static unsigned char tab[MAXFD];
+/* which open file a tracked descriptor number refers to (st_dev, st_ino): a descriptor that is
+ * closed behind its owner's back and whose number is reused shows up as a different file */
+static dev_t id_dev[MAXFD];
+static ino_t id_ino[MAXFD];
+static void remember(int fd) {
+  struct stat st;
+  if (fd < 0 || fd >= MAXFD) return;
+  if (fstat(fd, &st) == 0) { id_dev[fd] = st.st_dev; id_ino[fd] = st.st_ino; }
+}
+static int same_file(int fd) {
+  struct stat st;
+  if (fstat(fd, &st) != 0) return 0;
+  return st.st_dev == id_dev[fd] && st.st_ino == id_ino[fd];
+}
 static volatile int g_in_uv;        /* > 0 while a libuv API call is running */
 static int g_ncreate;               /* creation attempts inside libuv so far */
 static int g_fail_at, g_fail_errno = EMFILE;
@@ -137,10 +151,10 @@ static void created(const char* kind, int cx, int fd) {
     return;
   }
   OUT("+%s.%d=%d ", kind, cx, fd);
-  if (fd < MAXFD) tab[fd] = ST_LIBUV;
+  if (fd < MAXFD) { tab[fd] = ST_LIBUV; remember(fd); }
 }
 static void closed(int fd, int rc) {
-  if (fd == g_user_close) { OUT("c%d ", fd); if (fd >= 0 && fd < MAXFD) tab[fd] = ST_NONE; return; }
+  if (fd == g_user_close) { OUT(rc == 0 ? "c%d " : "cbad%d ", fd); if (fd >= 0 && fd < MAXFD) tab[fd] = ST_NONE; return; }
   if (fd < 0 || fd >= MAXFD || tab[fd] == ST_NONE || rc != 0) { OUT("xbad%d ", fd); return; }
   if (tab[fd] == ST_LIBUV) OUT("x%d ", fd); else OUT("xforeign%d ", fd);
   if (fd == g_uring_fd && g_ncreate == g_uring_at) g_uring_closed = 1;  /* inside uv__iou_init */
@@ -373,6 +387,10 @@ static void reconcile(void) {
     if (tab[fd] == ST_NONE) {
       OUT("+late.%d=%d ", !!(fl & FD_CLOEXEC), fd);
       tab[fd] = ST_LIBUV;
+      remember(fd);
+    } else if (!same_file(fd)) {
+      OUT("!changed%d ", fd);      /* same number, different file */
+      remember(fd);
     }
     if (tab[fd] == ST_LIBUV && !(fl & FD_CLOEXEC)) OUT("!nocx%d ", fd);
   }
@@ -397,7 +415,7 @@ static int user_fd(int fd) {
   if (fd < 0) return fd;
   hi = __real_fcntl64(fd, F_DUPFD_CLOEXEC, USERBASE);
   close(fd);
-  if (hi >= 0 && hi < MAXFD) tab[hi] = ST_USER;
+  if (hi >= 0 && hi < MAXFD) { tab[hi] = ST_USER; remember(hi); }
   OUT("{ }ua:%d:1=0 ", hi);
   return hi;
 }
@@ -500,7 +518,7 @@ static void run_token(const char* t) {
     int fd = atoi(t + 1), sk = __real_socket(AF_INET, SOCK_DGRAM, 0);
     close(fd); if (fd < MAXFD) tab[fd] = ST_NONE; OUT("{ c%d }uf:%d=0 ", fd, fd);
     if (sk >= 0 && sk != fd) { __real_dup2(sk, fd); close(sk); }
-    if (fd < MAXFD) tab[fd] = ST_USER;
+    if (fd < MAXFD) { tab[fd] = ST_USER; remember(fd); }
     OUT("{ }ua:%d:0=0 ", fd);
     return;
   }
@@ -686,11 +704,18 @@ static void run_token(const char* t) {
     for (q = strtok_r(spec, ",", &sv2); q != NULL && n < 10; q = strtok_r(NULL, ",", &sv2), n++) {
       if (q[0] == 'p') {
         int sh = atoi(q + 1);
-        if (sh < 0 || sh >= NH || hs[sh] == NULL || hkind[sh] != 'p') { OUT("!spawnstream "); free(hs[h]); hs[h] = NULL; return; }
+        if (sh < 0 || sh >= NH || hs[sh] == NULL || hkind[sh] != 'p') { OUT("{ }-=skip "); free(hs[h]); hs[h] = NULL; return; }
         sc[n].flags = UV_CREATE_PIPE | UV_READABLE_PIPE | UV_WRITABLE_PIPE;
         sc[n].data.stream = (uv_stream_t*) hs[sh];
         streams[ns++] = sh;
         snprintf(sd + strlen(sd), sizeof sd - strlen(sd), "%sp%d", n ? "," : "", midx[sh]);
+      } else if (q[0] == 's' || q[0] == 't') {
+        int sh = atoi(q + 1);
+        if (sh < 0 || sh >= NH || hs[sh] == NULL || (hkind[sh] != 'p' && hkind[sh] != 't')) { OUT("{ }-=skip "); free(hs[h]); hs[h] = NULL; return; }
+        sc[n].flags = q[0] == 's' ? UV_INHERIT_STREAM : (UV_CREATE_PIPE | UV_READABLE_PIPE | UV_WRITABLE_PIPE);
+        sc[n].data.stream = (uv_stream_t*) hs[sh];
+        snprintf(sd + strlen(sd), sizeof sd - strlen(sd), "%s%s", n ? "," : "",
+                 (q[0] == 's' && ((uv_stream_t*) hs[sh])->io_watcher.fd >= 0) ? "h" : "b");   /* b: UV_EINVAL */
       } else if (q[0] == 'h') {
         sc[n].flags = UV_INHERIT_FD; sc[n].data.fd = q[1] ? atoi(q + 1) : (n < 3 ? n : 2);
         snprintf(sd + strlen(sd), sizeof sd - strlen(sd), "%sh", n ? "," : "");
@@ -722,6 +747,14 @@ static void run_token(const char* t) {
     args[0] = (char*) o.file; args[1] = "--child"; args[2] = rslot; args[3] = NULL;
     o.args = args; o.exit_cb = exit_cb; o.stdio = sc; o.stdio_count = n;
     BEGIN(); rc = uv_spawn(&loop, (uv_process_t*) hs[h], &o); registered(h);
+    /* descriptors that were only lent to uv_spawn must still be open and the same files */
+    for (i = 0; i < n; i++) {
+      int lent = -1;
+      if (sc[i].flags & UV_INHERIT_STREAM) lent = sc[i].data.stream->io_watcher.fd;
+      else if ((sc[i].flags & UV_INHERIT_FD) && sc[i].data.fd < PRIV) lent = sc[i].data.fd;
+      if (lent >= 0 && lent < MAXFD && (__real_fcntl64(lent, F_GETFD, 0) < 0 || !same_file(lent)))
+        OUT("!stolen%d ", lent);
+    }
     END("sp:%d:%s:%d=%d", midx[h], sd, rc == 0, rc);
     close(rep[1]);
     if (rc == 0) {
@@ -897,7 +930,7 @@ static int worker(char* line, int resfd) {
   char* sv = NULL;
   int fd, i;
   for (fd = 0; fd < MAXFD; fd++)
-    if (__real_fcntl64(fd, F_GETFD, 0) >= 0) tab[fd] = fd >= PRIV ? ST_PRIV : ST_USER;
+    if (__real_fcntl64(fd, F_GETFD, 0) >= 0) { tab[fd] = fd >= PRIV ? ST_PRIV : ST_USER; remember(fd); }
   for (i = 0; i < NH; i++) given[i] = -1;
   g_pid = getpid();
   uv_replace_allocator(my_malloc, my_realloc, my_calloc, free);
